@@ -15,11 +15,14 @@ func init() {
 		LLSpec{File: "c03.c", Func: "harness_any_adler32", Params: map[string]int{"N": 6}, ParamsT: map[string]int{"N": 12}, Reach: []string{"any/done"}},
 		LLSpec{File: "c03.c", Func: "harness_any_crc32", Params: map[string]int{"N": 3}, ParamsT: map[string]int{"N": 6}, Reach: []string{"any/done"}},
 	)
+	for _, hname := range []string{"xxhash32", "xxhash64"} {
+		specs = append(specs, LLSpec{File: "c03.c", Func: "harness_any_" + hname, Params: map[string]int{"N": 20}, ParamsT: map[string]int{"N": 24}, Reach: []string{"any/done"}})
+	}
 	// harness_any_lzw (std/lzw on <= 2 bytes) exists in c03.c but is not registered: 86 000 paths in 8 minutes and
 	// symbolic offsets with 20 530 candidate positions in the decoder's tables (unsupported) - outside the claim.
 	register(&PropSpec{ID: "C03", Level: "model_checking",
 		Outside: []string{
-			"std/ decoders beyond the adler32 and crc32 hashers (lzw, deflate, zlib, gzip, image decoders): objects of tens of kilobytes and table-driven loops make each path too long for this engine in the time available",
+			"std/ decoders beyond the adler32, crc32, xxhash32 and xxhash64 hashers (crc64 on 20 bytes did not finish in 9 minutes) (lzw, deflate, zlib, gzip, image decoders): objects of tens of kilobytes and table-driven loops make each path too long for this engine in the time available",
 			"inputs longer than N bytes; hand-written pixconv/floatconv sub-modules; SIMD variants (WUFFS_CONFIG__AVOID_CPU_ARCH build)",
 			"nsw/nuw overflow flags of the IR are not checked (clang derives them from C-level reasoning; the C sources use unsigned arithmetic); misaligned accesses are not checked",
 		},
